@@ -120,7 +120,7 @@ let parse_rule (s : string) : frule =
     | _ -> failwith "rule") parts;
   { fr_remove = List.rev !rem; fr_replace = List.rev !rep }
 
-type line = Op of op | Open of dbmode * (n list * frule) list | Skip
+type line = Op of op | Open of dbmode * (n list * frule) list | Skip | Multi of op list | Journals
 
 let parse_open toks =
   let mode = ref MPlain and filters = ref [] in
@@ -144,6 +144,11 @@ let parse_line (s : string) : line =
   | ["exists"; name] -> Op (OExists (bytes_of_ascii name))
   | ["names"] -> Op ONames
   | ["put"; h; k; v] -> Op (OPut (parse_h h, hx k, hx v))
+  | ["bigfill"; h; count; kib; tag] ->
+      (* <count> puts of key "bf<tag><%04d>" with <kib> KiB of data: the model gets the 6-byte placeholder ff fe fd fc hi lo *)
+      let kib = int_of_string kib in
+      let v = List.map n_of_int [255; 254; 253; 252; kib / 256; kib mod 256] in
+      Multi (List.init (int_of_string count) (fun i -> OPut (parse_h h, bytes_of_ascii (Printf.sprintf "bf%s%04d" tag i), v)))
   | ["del"; h; k] -> Op (ODel (parse_h h, hx k))
   | ["delw"; h; k] -> Op (ODelW (parse_h h, hx k))
   | ["clear"; h] -> Op (OClear (parse_h h))
@@ -182,15 +187,20 @@ let parse_line (s : string) : line =
   | ["gc"] -> Op (OGc false)
   | ["pullup"] -> Op (OGc true)
   | ["dump"] -> Op ODump
+  | ["journals"] -> Journals
   | _ -> Skip
 
 (* ---------- printing ---------- *)
-let kv_str (k, v) = hex_of_bytes k ^ "=" ^ hex_of_bytes v
+(* the placeholder ff fe fd fc hi lo stands for (256 hi + lo) KiB of data; the harness prints such values as BIG<bytes> *)
+let show_val v = match List.map int_of_n v with
+  | [255; 254; 253; 252; a; b] -> Printf.sprintf "BIG%d" ((a * 256 + b) * 1024)
+  | _ -> hex_of_bytes v
+let kv_str (k, v) = hex_of_bytes k ^ "=" ^ show_val v
 let list_str l = if l = [] then "-" else String.concat "," (List.map kv_str l)
 let err_str c = match int_of_n c with 1 -> "poisoned" | 2 -> "deleted" | 20 -> "notx" | 21 -> "busy" | n -> "code" ^ string_of_int n
 let obs_str = function
   | Ox ObOk -> "ok" | Ox (ObErr c) -> "err " ^ err_str c
-  | Ox (ObOpt None) -> "none" | Ox (ObOpt (Some b)) -> "some " ^ hex_of_bytes b
+  | Ox (ObOpt None) -> "none" | Ox (ObOpt (Some b)) -> "some " ^ show_val b
   | Ox (ObBool b) -> if b then "true" else "false"
   | Ox (ObNum n) -> string_of_n n
   | Ox (ObKv None) -> "none" | Ox (ObKv (Some p)) -> "some " ^ kv_str p
@@ -226,6 +236,11 @@ let cmd_run cfgs file =
     match (try parse_line t with _ -> Skip) with
     | Open (m, f) -> d := db_init m f; Printf.printf "%d ok\n" lineno
     | Skip -> Printf.printf "%d skip\n" lineno
+    | Journals -> Printf.printf "%d %d\n" lineno (List.length (!d).d_sealed + 1)
+    | Multi ops ->
+        let last = ref "ok" in
+        List.iter (fun o -> let (d', x) = db_step cfg !d o in d := d'; let r = obs_str x in if r <> "ok" then last := r) ops;
+        Printf.printf "%d %s\n" lineno !last
     | Op o -> let (d', x) = db_step cfg !d o in d := d'; Printf.printf "%d %s\n" lineno (obs_str x)) lines
 
 (* ---------- journal commands ---------- *)
